@@ -45,7 +45,6 @@
 (*   DevTypeCondAtomic    comment between `on` and the type name            *)
 (*   DevFragmentNameOn    `on` accepted as a fragment name                  *)
 (*   DevKwPrefix          keyword literals match a prefix of a longer name  *)
-(*   DevRepeatable        every directive definition is repeatable          *)
 (*   DevSchemaDesc        description before `schema` rejected              *)
 (*   DevExtIfaceImpl      `extend interface A implements B` rejected        *)
 (*   DevNegZero           the IntValue -0 becomes the float -0.0            *)
@@ -54,12 +53,12 @@
 EXTENDS StringLitP
 
 GrammarDevs == {"DevEmptyVarDefs", "DevVarDefOrder", "DevVarDefDirConst", "DevTypeAtomic", "DevTypeCondAtomic",
-                "DevFragmentNameOn", "DevKwPrefix", "DevRepeatable", "DevSchemaDesc", "DevExtIfaceImpl", "DevNegZero"}
+                "DevFragmentNameOn", "DevKwPrefix", "DevSchemaDesc", "DevExtIfaceImpl", "DevNegZero"}
 AllDevs == GrammarDevs \cup BlockDevs \cup LexDevs
 \* fixed order used to print the deviations of a verdict
-DevOrder == <<"DevBlockEscape", "DevBlockShortBlank", "DevBlockOpenFallback", "DevLeadingZero", "DevNegZero",
+DevOrder == <<"DevBlockOpenFallback", "DevLeadingZero", "DevNegZero",
               "DevEmptyVarDefs", "DevVarDefOrder", "DevVarDefDirConst", "DevTypeAtomic", "DevTypeCondAtomic",
-              "DevFragmentNameOn", "DevKwPrefix", "DevRepeatable", "DevSchemaDesc", "DevExtIfaceImpl">>
+              "DevFragmentNameOn", "DevKwPrefix", "DevSchemaDesc", "DevExtIfaceImpl">>
 
 \* ---- tokens -----------------------------------------------------------------------------------------
 P(s)      == Tok("p", s, <<>>, "w")
@@ -134,7 +133,7 @@ TypeDefProd(t, code, dev, afterDesc) ==
     [] IsKw(t, "enum") -> <<KW("enum", code), NM("", "name"), NT("CDirsOpt"), NT("EnumValsOpt")>>
     [] IsKw(t, "input") -> <<KW("input", code), NM("", "name"), NT("CDirsOpt"), NT("InFieldsOpt")>>
     [] IsKw(t, "directive") -> <<KW("directive", code), T("@", ""), NM("", "name"), NT("ArgDefsOpt"), NT("RepeatableOpt"),
-                                 KW("on", "dirdef-on"), NT("BarOpt"), NM("loc", "loc"), NT("LocRest")>>
+                                 KW("on", ""), NT("BarOpt"), NM("loc", "loc"), NT("LocRest")>>
     [] OTHER -> <<FAIL>>
 
 ProdExec(X, t, dev) ==
@@ -350,7 +349,6 @@ EmitTree(item, t, ast, dev) ==
        [] code = "defkind" -> ast \o <<E("def", ""), E("kind", t.s)>>
        [] code = "inline{" -> ast \o <<E("inline", ""), E("sel{", "")>>
        [] code \in Roots   -> InsertRoot(ast, E(code, t.s))
-       [] code = "dirdef-on" -> IF "DevRepeatable" \in dev /\ ast[Len(ast)][1] # "repeatable" THEN Append(ast, E("repeatable", "")) ELSE ast
        [] code = "int" /\ t.s = "-0" /\ "DevNegZero" \in dev -> Append(ast, E("float", "-0.0"))
        [] OTHER -> Append(ast, <<code, s, cp>>)
 
@@ -389,7 +387,6 @@ MatchUsed(item, t, dev) ==
   (IF item[1] = "n" /\ item[2] = "noton" /\ t.s = "on" THEN {"DevFragmentNameOn"} ELSE {})
   \cup (IF item[1] = "lit" /\ item[2] = "str" THEN StrTokUsed(t, dev) ELSE {})
   \cup (IF item[3] = "int" /\ t.s = "-0" /\ "DevNegZero" \in dev THEN {"DevNegZero"} ELSE {})
-  \cup (IF item[3] = "dirdef-on" /\ "DevRepeatable" \in dev THEN {"DevRepeatable"} ELSE {})
 
 \* today's atomic rules: no ignored tokens inside a Type, no comment between `on` and the type name,
 \* enum values / values that merely start with true, false, null
@@ -456,14 +453,19 @@ SdlWellFormed(ast) ==
         /\ \A j \in 1..(Len(d) - 1) : d[j][1] \in Roots => d[j + 1][1] # d[j][1]
         /\ (d[2] # E("extend", "") => \E j \in 1..Len(d) : d[j][1] = "rootq")
 
-\* selection-set nesting (documented deviation: at most 64 levels are guaranteed to be accepted)
+\* Documented deviation of the property: "selection sets nest at most 64 levels deep".  Counted as parse_selection_set /
+\* MAX_RECURSION_DEPTH count it: the selection set of an operation or fragment definition is level 0 and every field or
+\* inline fragment (with or without type condition) that opens a selection set adds one level.  A document whose nesting
+\* is <= NestingLimit must be accepted, one whose nesting exceeds it must be rejected (GrammarTrace!Agrees).
+NestingLimit == 64
 RECURSIVE DepthScan(_, _, _, _)
 DepthScan(ast, i, d, m) ==
   IF i > Len(ast) THEN m
   ELSE IF ast[i][1] = "sel{" THEN DepthScan(ast, i + 1, d + 1, IF d + 1 > m THEN d + 1 ELSE m)
   ELSE IF ast[i][1] = "}sel" THEN DepthScan(ast, i + 1, d - 1, m)
   ELSE DepthScan(ast, i + 1, d, m)
-MaxSelDepth(ast) == DepthScan(ast, 1, 0, 0)
+MaxSelDepth(ast) == DepthScan(ast, 1, 0, 0)          \* selection sets open at once, the outermost included
+SelNesting(ast) == IF MaxSelDepth(ast) = 0 THEN 0 ELSE MaxSelDepth(ast) - 1
 
 \* lexical rule the renderer must respect when it leaves no ignored token between two tokens
 NeedsSep(a, b) ==
